@@ -23,6 +23,10 @@ type roleFinding struct {
 	file                string
 }
 
+// genericParamNames: parameter names of dependency functions that state no role.
+var genericParamNames = map[string]bool{"obj": true, "object": true, "o": true, "v": true, "x": true, "y": true, "s": true, "b": true, "in": true, "out": true,
+	"data": true, "value": true, "val": true, "item": true, "e": true, "err": true, "ctx": true, "a": true, "i": true, "n": true, "t": true, "src": true, "dst": true, "elems": true}
+
 // roleExceptions: callee / parameter / argument name → reason (confirmed by reading; one symbol each).
 var roleExceptions = map[string]string{
 	"childClaimMap.setParentRevision/pr/latest": "moving the claim to the latest revision is the purpose of these calls; the caller's pr is the previous claimant",
@@ -41,7 +45,24 @@ func normName(s string) string {
 // roleSitesByFunc: call sites examined per "file:function" (for the controls).
 var roleSitesByFunc = map[string]int{}
 
+var roleMemo = map[*Program]struct {
+	fs    []roleFinding
+	sites int
+}{}
+
 func roleFindings(p *Program) ([]roleFinding, int) {
+	if m, ok := roleMemo[p]; ok {
+		return m.fs, m.sites
+	}
+	fs, sites := roleFindingsUncached(p)
+	roleMemo[p] = struct {
+		fs    []roleFinding
+		sites int
+	}{fs, sites}
+	return fs, sites
+}
+
+func roleFindingsUncached(p *Program) ([]roleFinding, int) {
 	var out []roleFinding
 	sites := 0
 	roleSitesByFunc = map[string]int{}
@@ -144,6 +165,39 @@ func roleFindings(p *Program) ([]roleFinding, int) {
 								}
 							}
 						}
+					case *ast.CallExpr:
+						// (K) append(xs, e): when the caller has a variable named like the singular of xs (names / name,
+						// matchingParents / parent) of the element type, that is what is appended
+						if id, isI := x.Fun.(*ast.Ident); isI && id.Name == "append" && info.Uses[id] == types.Universe.Lookup("append") && len(x.Args) == 2 && !x.Ellipsis.IsValid() {
+							sn := ""
+							switch s := x.Args[0].(type) {
+							case *ast.Ident:
+								sn = s.Name
+							case *ast.SelectorExpr:
+								sn = s.Sel.Name
+							}
+							el, isEl := x.Args[1].(*ast.Ident)
+							sing := strings.TrimSuffix(normName(sn), "s")
+							if isEl && len(sing) >= 4 {
+								eo, _ := info.Uses[el].(*types.Var)
+								if eo != nil && !sameRole(normName(el.Name), sing) {
+									for sc := pkg.Types.Scope().Innermost(x.Pos()); sc != nil && sc != pkg.Types.Scope() && sc != types.Universe; sc = sc.Parent() {
+										for _, n := range sc.Names() {
+											v, isV := sc.Lookup(n).(*types.Var)
+											if !isV || v == eo || v.Pos() >= x.Pos() || !sameRole(normName(n), sing) || !types.Identical(v.Type(), eo.Type()) {
+												continue
+											}
+											if _, got := sc.LookupParent(n, x.Pos()); got != v {
+												continue
+											}
+											pos := p.Fset.Position(x.Pos())
+											ord["appendel"]++
+											out = append(out, roleFinding{rel + ":" + itoaN(pos.Line), fd.Name.Name + "→append-element#" + itoaN(ord["appendel"]-1), el.Name + " is appended to " + sn + " although the caller has " + n + " of the same type in scope: wrong operand", rel})
+										}
+									}
+								}
+							}
+						}
 					case *ast.BinaryExpr:
 						// (G) x == x / x != x
 						if (x.Op.String() == "==" || x.Op.String() == "!=") && sameVar(x.X, x.Y) {
@@ -224,12 +278,12 @@ func roleFindings(p *Program) ([]roleFinding, int) {
 						case *ast.Ident:
 							// (B) a same-named, same-typed variable of the caller is in reach, yet another one is passed
 							obj, _ := info.Uses[x].(*types.Var)
-							if obj == nil || !inModule || !types.Identical(obj.Type(), pi.Type()) {
+							if obj == nil || (!inModule && genericParamNames[pn]) || !types.Identical(obj.Type(), pi.Type()) {
 								continue // a derived / more specific value handed to a wider parameter is not a mix-up of two like operands
 							}
 							for sc := pkg.Types.Scope().Innermost(x.Pos()); sc != nil && sc != pkg.Types.Scope() && sc != types.Universe; sc = sc.Parent() {
 								for _, n := range sc.Names() {
-									if normName(n) != pn || roleExceptions[ckey+"/"+pi.Name()+"/"+x.Name] != "" {
+									if !(normName(n) == pn || (!soft && inModule && sameRole(normName(n), pn))) || roleExceptions[ckey+"/"+pi.Name()+"/"+x.Name] != "" {
 										continue
 									}
 									v, isV := sc.Lookup(n).(*types.Var)
@@ -248,7 +302,7 @@ func roleFindings(p *Program) ([]roleFinding, int) {
 						case *ast.SelectorExpr:
 							// (D) a sibling field named like the parameter exists, yet another field is passed
 							sel := info.Selections[x]
-							if sel == nil || sel.Kind() != types.FieldVal || soft || !inModule {
+							if sel == nil || sel.Kind() != types.FieldVal || soft || (!inModule && genericParamNames[pn]) {
 								continue
 							}
 							rt := sel.Recv()
@@ -269,7 +323,7 @@ func roleFindings(p *Program) ([]roleFinding, int) {
 								}
 							}
 							for _, fl := range fields {
-								if fl.Name() != x.Sel.Name && sameRole(normName(fl.Name()), pn) && types.Identical(fl.Type(), pi.Type()) {
+								if fl.Name() != x.Sel.Name && normName(fl.Name()) == pn && types.Identical(fl.Type(), pi.Type()) {
 									out = append(out, roleFinding{where, construct + "[arg" + itoaN(i) + "]", "parameter " + pi.Name() + " of " + ckey + " is given field " + x.Sel.Name + " although the same value has a field " + fl.Name() + " of the same type: wrong operand", rel})
 								}
 							}
@@ -506,4 +560,146 @@ func noOpTestOperands(r *Report, p *Program, rule string) {
 			}
 		}
 	}
+}
+
+// rmwOperands (C02/C10/C11/C16): the read-modify-write helpers apply the caller's update function to, and write
+// back, the object they have just read — not the (possibly nil, possibly previous-attempt) result variable and
+// not the stale original.
+func rmwOperands(r *Report, p *Program, rule string) {
+	r.Rule(rule, "AtomicUpdate / AtomicStatusUpdate: the update callback and every Update/UpdateStatus request get the object returned by the Get of the same attempt")
+	r.Floor(rule, 2)
+	for _, key := range []string{"dynamic/clientset.ResourceClient.AtomicUpdate", "dynamic/clientset.ResourceClient.AtomicStatusUpdate"} {
+		f := fn(r, p, rule, key)
+		if f == nil {
+			continue
+		}
+		for _, cl := range engine.Closures(f) {
+			gets := callsTo(cl, false, "ResourceInterface.Get", "ResourceClient.Get")
+			if len(gets) != 1 {
+				continue
+			}
+			get := gets[0].Instr.(ssa.Value)
+			isCur := func(v ssa.Value) bool {
+				ex, ok := engine.Unwrap(v).(*ssa.Extract)
+				return ok && ex.Tuple == get && ex.Index == 0
+			}
+			ok, why := true, ""
+			n := 0
+			for _, b := range cl.Blocks {
+				for _, in := range b.Instrs {
+					ci, isC := in.(ssa.CallInstruction)
+					if !isC {
+						continue
+					}
+					k := engine.CallKey(ci.Common())
+					dyn := ci.Common().StaticCallee() == nil && !ci.Common().IsInvoke() // the update callback
+					if !(dyn || strings.HasSuffix(k, ".Update") || strings.HasSuffix(k, ".UpdateStatus")) {
+						continue
+					}
+					for _, a := range ci.Common().Args {
+						if strings.HasSuffix(a.Type().String(), "unstructured.Unstructured") {
+							n++
+							if !isCur(a) {
+								ok, why = false, sf("%s at %s is given %s, not the object read by this attempt's Get", Short(k), p.InstrPos(in), E(a))
+							}
+						}
+					}
+				}
+			}
+			if n < 2 {
+				ok, why = false, "the update callback and the write were not both found in the retry closure"
+			}
+			r.Check(rule, FK(f)+"[callback-and-write-get-the-fresh-object]", p.Pos(f.Pos()), ok, "update(current); Update(current)", why)
+		}
+	}
+}
+
+// oneKeyPerSharedMap (C18/C20): SharedInformerFactory.Resource and its close function address refCount and
+// sharedInformers with ONE key (the resourceKey of the two parameters): an access under another key subscribes,
+// counts or releases a different informer than the one handed out.
+func oneKeyPerSharedMap(r *Report, p *Program, rule string) {
+	r.Rule(rule, "SharedInformerFactory.Resource (and its close closure): every lookup, update and delete on refCount / sharedInformers uses the same key variable, which is resourceKey(apiVersion, resource)")
+	r.Floor(rule, 1)
+	f := fn(r, p, rule, "dynamic/informer.SharedInformerFactory.Resource")
+	if f == nil {
+		return
+	}
+	var canon func(v ssa.Value, g *ssa.Function, d int) ssa.Value
+	canon = func(v ssa.Value, g *ssa.Function, d int) ssa.Value {
+		if d > 6 {
+			return v
+		}
+		switch x := v.(type) {
+		case *ssa.UnOp:
+			if x.Op.String() == "*" {
+				return canon(x.X, g, d+1)
+			}
+		case *ssa.FreeVar:
+			// binding in the enclosing function
+			if par := g.Parent(); par != nil {
+				for _, b := range par.Blocks {
+					for _, in := range b.Instrs {
+						if mc, ok := in.(*ssa.MakeClosure); ok && mc.Fn == ssa.Value(g) {
+							for i, fv := range g.FreeVars {
+								if fv == x && i < len(mc.Bindings) {
+									return canon(mc.Bindings[i], par, d+1)
+								}
+							}
+						}
+					}
+				}
+			}
+		}
+		return v
+	}
+	keys := map[ssa.Value]int{}
+	n := 0
+	var keyVal ssa.Value
+	for _, g := range append([]*ssa.Function{f}, engine.Closures(f)...) {
+		for _, b := range g.Blocks {
+			for _, in := range b.Instrs {
+				var m, k ssa.Value
+				switch x := in.(type) {
+				case *ssa.Lookup:
+					m, k = x.X, x.Index
+				case *ssa.MapUpdate:
+					m, k = x.Map, x.Key
+				case ssa.CallInstruction:
+					if isCallTo(in, "builtin.delete") {
+						m, k = x.Common().Args[0], x.Common().Args[1]
+					}
+				}
+				if m == nil {
+					continue
+				}
+				if e := E(m); !(strings.HasSuffix(e, ".refCount") || strings.HasSuffix(e, ".sharedInformers")) {
+					continue
+				}
+				n++
+				c := canon(k, g, 0)
+				keys[c]++
+				keyVal = c
+			}
+		}
+	}
+	ok, why := n >= 6 && len(keys) == 1, sf("%d accesses to refCount/sharedInformers use %d different keys", n, len(keys))
+	if ok {
+		// the one key is resourceKey(p1, p2)
+		src := ""
+		if al, isA := keyVal.(*ssa.Alloc); isA {
+			if refs := al.Referrers(); refs != nil {
+				for _, u := range *refs {
+					if st, isS := u.(*ssa.Store); isS && st.Addr == ssa.Value(al) {
+						src = E(st.Val)
+					}
+				}
+			}
+		} else {
+			src = E(keyVal)
+		}
+		if !(strings.Contains(src, "resourceKey)(p1, p2)")) {
+			ok, why = false, "the key is "+src+", not resourceKey(apiVersion, resource)"
+		}
+	}
+	r.Check(rule, FK(f)+"[one-key]", p.Pos(f.Pos()), ok, sf("%d accesses, one key", n), why)
 }
